@@ -10,7 +10,7 @@ import gen_template as G  # noqa: E402
 import jobparams_common as jc  # noqa: E402
 
 from openjd.model import (  # noqa: E402
-    DecodeValidationError, ParameterValue, ParameterValueType, StepParameterSpaceIterator, create_job, decode_job_template,
+    DecodeValidationError, ParameterValue, ParameterValueType, StepParameterSpaceIterator, create_job, decode_environment_template, decode_job_template,
 )
 
 _SRC_CHARS = "".join(sorted({c for c in Path(G.__file__).read_text() if ord(c) > 127}))
@@ -118,7 +118,24 @@ class C09(core.PropBase):
                     vals[p["name"]] = rng.choice(["5", "0", "-3", " 7 ", "1_0", "2", "3", "1"] if rng.random() < 0.8 else VALUE_POOL)
                 else:
                     vals[p["name"]] = rng.choice(["1.5", "2", "0.25", "-2.5", "1e1", " 3 ", "1_0.5"] if rng.random() < 0.8 else VALUE_POOL)
-            yield {"doc": doc, "vals": vals}
+            envs = []
+            if i % 5 == 1:
+                # an environment template that defines the SAME parameter with another (more permissive) type and a
+                # default / constraint, next to a bare definition in the job template: the merge must be refused
+                # (then no Job is returned); if a Job is returned its values must still conform to the Job's types
+                p = rng.choice(doc["parameterDefinitions"])
+                for k in ("minValue", "maxValue", "allowedValues", "default"):
+                    p.pop(k, None)
+                other = rng.choice([t for t in ("STRING", "FLOAT", "INT", "PATH") if t != p["type"]])
+                q = {"name": p["name"], "type": other}
+                q.update(rng.choice([{"default": "many"}, {"default": "2.5"}, {"minLength": 1}, {"allowedValues": ["many", "2.5", "7"]}, {}]) if other in ("STRING", "PATH")
+                         else rng.choice([{"default": 2.5}, {"minValue": 0}, {"allowedValues": [2.5, 7]}, {}]) if other == "FLOAT" else rng.choice([{"default": 7}, {"minValue": 0}, {}]))
+                envs = [{"specificationVersion": "environment-2023-09", "parameterDefinitions": [q], "environment": {"name": "e", "variables": {"A": "b"}}}]
+                if rng.random() < 0.5:
+                    vals.pop(p["name"], None)
+                else:
+                    vals[p["name"]] = rng.choice(["many", "2.5", "", "7"])
+            yield {"doc": doc, "vals": vals, "envs": envs}
 
     def rule(self, tier):
         return ("templates with job parameters of all four types and INT / FLOAT / STRING / PATH task parameters whose ranges (lists and range expressions) mix "
@@ -135,11 +152,15 @@ class C09(core.PropBase):
         """-> ("ok", [(kind, type, value)...]) | ("skip", reason)"""
         try:
             jt = decode_job_template(template=G.deep(case["doc"]))
+            for e in case.get("envs") or []:
+                decode_environment_template(template=G.deep(e))
         except DecodeValidationError:
             return "skip", "template-rejected"
         types = {p["name"]: p["type"] for p in case["doc"].get("parameterDefinitions") or []}
         try:
-            job = create_job(job_template=jt, job_parameter_values={k: ParameterValue(type=ParameterValueType(types[k]), value=v) for k, v in case["vals"].items() if k in types})
+            ets = [decode_environment_template(template=G.deep(e)) for e in case.get("envs") or []] or None
+            job = create_job(job_template=jt, job_parameter_values={k: ParameterValue(type=ParameterValueType(types[k]), value=v) for k, v in case["vals"].items() if k in types},
+                             environment_templates=ets)
         except DecodeValidationError:
             return "skip", "create-rejected"
         out = []
